@@ -9,10 +9,11 @@ RULES = {
     'C06.R1': 'every non-root node with an Indeterminate cache passes phase_inh -> phase_one -> phase_two (each only if the previous left it Indeterminate) and the result is stored; the only skips are the root and the cached-state arms',
     'C06.R2': 'from an Infeasible classification every path queues the node\'s parent edge for removal and skips its subtree; every queued entry reaches try_remove_child; a cached Infeasible node has its subtree skipped',
     'C06.R3': 'forward_if_redundant(parent of node) is called exactly when the last sibling (n_remaining == 0) has been classified',
-    'C06.R5': 'cache discipline (shared with C05.R2/R3): only the elimination writes verdicts, new nodes start Indeterminate, rewritten nodes are reset or are terminals',
+    'C06.R5': 'cache discipline (shared with C05.R1/R2/R3): only the elimination writes verdicts, new nodes start Indeterminate, rewritten nodes are reset or are terminals, every cached witness passed the containment test for the node\'s own region',
     'C06.R4': 'the cached-state arms perform no mutation of the tree (a second run changes nothing)',
+    'C06.R6': 'no function of the elimination (infeasible_elimination and the AffTree methods it reaches) resets a stored verdict to Indeterminate or borrows it mutably',
 }
-FLOORS = {'C06.R1': 4, 'C06.R2': 3, 'C06.R3': 1, 'C06.R4': 2, 'C06.R5': 9}
+FLOORS = {'C06.R1': 4, 'C06.R2': 3, 'C06.R3': 1, 'C06.R4': 2, 'C06.R5': 12, 'C06.R6': 4}
 EXPLANATION = 'Must-classify / must-remove / must-forward path rules over the traversal loop of infeasible_elimination.'
 DOES_NOT_DECIDE = 'emptiness itself (the LP answer, C10); terminal-count bounds for distilled networks'
 CACHED = {'Infeasible', 'Feasible', 'FeasibleWitness'}
@@ -26,13 +27,65 @@ def shared_cache_rules(ctx):
     sub = Ctx(ctx.facts, ctx.tier, ctx.prop)
     c05.r2(sub)
     c05.r3(sub)
+    # a Feasible verdict without a checked witness would shield an empty region from the LP and from removal
+    prune.check_witness_guards(sub, 'C06.R5')
     for i in sub.insts:
         i.rule = 'C06.R5'
         ctx.insts.append(i)
 
 
+def no_downgrade(ctx):
+    """C06.R6: inside the elimination (infeasible_elimination and every AffTree method it reaches) a verdict, once stored, is never reset:
+    forwarding tests the stored states of the siblings, and a second run must find every node classified.  Resets to Indeterminate belong to
+    the operations that change a node's function or path (C05.R3), not to the elimination."""
+    from .c05 import content_field_writes
+    F = ctx.facts
+    start = F.q('AffTree::infeasible_elimination')
+    if start is None:
+        ctx.lost('C06.R6', 'AffTree::infeasible_elimination')
+        return
+    reach = {}
+    work = [start]
+    while work:
+        b = work.pop()
+        if b.path in reach:
+            continue
+        reach[b.path] = b
+        for cb in b.closure_bodies():
+            work.append(cb)
+        for bb, t in b.calls():
+            c = Callee(t['func'])
+            if c.self_base == 'AffTree' and c.local:
+                try:
+                    callee = F.q('AffTree::' + c.name)
+                except KeyError:
+                    callee = None
+                if callee is not None:
+                    work.append(callee)
+    writes = {}
+    for w in content_field_writes(F, 'state'):
+        if w[0].path in reach:
+            writes.setdefault(w[0].path, []).append(w)
+    for path, b in sorted(reach.items()):
+        if b.kind == 'Closure' and path not in writes:
+            continue
+        site = '%s#no-downgrade' % b.qname
+        bad = []
+        for (wb, i, j, kind, tgt, val, owned, span) in writes.get(path, []):
+            if owned:
+                continue
+            if kind == 'assign' and val is not None and not (val[0] == 'agg' and isinstance(val[1], tuple) and val[1][1] == 'NodeState' and val[1][2] == 'Indeterminate'):
+                continue   # a verdict being stored (its provenance is C05.R2's concern)
+            bad.append(span)
+        if bad:
+            ctx.bad('C06.R6', site, 'the elimination resets (or hands out for mutation) the cached verdict of a node it has classified: forwarding of the parent and a second run then see an unclassified node', bad[0])
+        else:
+            ctx.ok('C06.R6', site, 'no reset of a stored verdict', b.span)
+
+
 def run(ctx):
     shared_cache_rules(ctx)
+    no_downgrade(ctx)
     b = ctx.body('C06.R1', 'AffTree::infeasible_elimination')
     if b is None:
         return
